@@ -14,16 +14,18 @@ Record case := {
   c_creator : list bool;           (* class i has an instance_creator *)
   c_script : list outcome;         (* what the n-th creator invocation does *)
   c_dflt : outcome;
-  c_hist : list event;
+  c_hist : list (nat * event);     (* (daemon, event): several daemons in the process serve the same classes *)
+  c_cd : nat;                      (* the daemon on which the concurrent phase runs *)
+  c_ncls : nat;
   c_calls : list (list nat);       (* concurrent phase: thread i calls these (single) classes *)
   c_sched : list nat;
   (* observed on the implementation *)
-  c_obs : list obs;
+  c_obs : list (list obs);                       (* per daemon *)
   c_results : list (list (nat * obs));
   c_done : list bool;
-  c_log : list (nat * outcome);
-  c_singles : list (option nat);
-  c_sessions : list (list (option nat)) }.
+  c_log : list (list (nat * outcome));           (* per daemon *)
+  c_singles : list (list (option nat));          (* per daemon, per class *)
+  c_sessions : list (list (list (option nat))) }. (* per daemon, per connection, per class *)
 
 (* an instance can only be falsy / equal to None if its class defines the special methods, and only
    a creator can return an object of the wrong type (a failing constructor just raises) *)
@@ -64,30 +66,32 @@ Definition visible (th : thread st regs) : list (nat * obs) :=
   | _ => done (tregs th)
   end.
 
-Record out := { o_obs : list obs; o_results : list (list (nat * obs)); o_done : list bool;
-                o_log : list (nat * outcome); o_singles : list (option nat); o_sessions : list (list (option nat)) }.
+Record out := { o_obs : list (list obs); o_results : list (list (nat * obs)); o_done : list bool;
+                o_log : list (list (nat * outcome)); o_singles : list (list (option nat));
+                o_sessions : list (list (list (option nat))) }.
 
 Definition model_case (c : case) : out :=
   let w := hworld c in
   let modes := hmodes c in
-  let r := run_hist code_shape w modes (c_hist c) st0 in
-  let cf := run (c_sched c) (conc_init code_shape w (fst r) (c_calls c)) in
-  let s := shared cf in
-  let ncls := length (c_singles c) in
+  let m := mrun code_shape (fun _ => w) modes (c_hist c) in
+  let cf := run (c_sched c) (conc_init code_shape w (fst (m (c_cd c))) (c_calls c)) in
+  let state := fun d => if Nat.eqb d (c_cd c) then shared cf else fst (m d) in
+  let ds := seq 0 (length (c_obs c)) in
+  let cls := seq 0 (c_ncls c) in
   let idx := seq 0 (length (c_calls c)) in
-  {| o_obs := map snd (snd r);
+  {| o_obs := map (fun d => map snd (snd (m d))) ds;
      o_results := map (fun i => visible (threads cf i)) idx;
      o_done := map (fun i => thread_done (threads cf i)) idx;
-     o_log := log s;
-     o_singles := map (fun cl => option_map iid (singles s cl)) (seq 0 ncls);
-     o_sessions := map (fun k => map (fun cl => option_map iid (sessions s k cl)) (seq 0 ncls))
-                       (seq 0 (length (c_sessions c))) |}.
+     o_log := map (fun d => log (state d)) ds;
+     o_singles := map (fun d => map (fun cl => option_map iid (singles (state d) cl)) cls) ds;
+     o_sessions := map (fun d => map (fun k => map (fun cl => option_map iid (sessions (state d) k cl)) cls)
+                                     (seq 0 (length (nth d (c_sessions c) [])))) ds |}.
 
 Definition check_case (c : case) : bool :=
   let m := model_case c in
-  list_eqb obs_eqb (o_obs m) (c_obs c) &&
+  list_eqb (list_eqb obs_eqb) (o_obs m) (c_obs c) &&
   list_eqb (list_eqb (pair_eqb Nat.eqb obs_eqb)) (o_results m) (c_results c) &&
   list_eqb Bool.eqb (o_done m) (c_done c) &&
-  list_eqb (pair_eqb Nat.eqb outcome_eqb) (o_log m) (c_log c) &&
-  list_eqb (option_eqb Nat.eqb) (o_singles m) (c_singles c) &&
-  list_eqb (list_eqb (option_eqb Nat.eqb)) (o_sessions m) (c_sessions c).
+  list_eqb (list_eqb (pair_eqb Nat.eqb outcome_eqb)) (o_log m) (c_log c) &&
+  list_eqb (list_eqb (option_eqb Nat.eqb)) (o_singles m) (c_singles c) &&
+  list_eqb (list_eqb (list_eqb (option_eqb Nat.eqb))) (o_sessions m) (c_sessions c).
